@@ -245,6 +245,12 @@ def to_model(data_file: typing.IO, _config = None, progress_callback=lambda _: N
       if line is None or _EMPTY_RE.fullmatch(line):
         subtitle_text = subtitle_text.strip('\r\n')\
           .replace("\r\n", "\n")\
+          .replace(r"{b}", r"<b>")\
+          .replace(r"{/b}", r"</b>")\
+          .replace(r"{i}", r"<i>")\
+          .replace(r"{/i}", r"</i>")\
+          .replace(r"{u}", r"<u>")\
+          .replace(r"{/u}", r"</u>")\
           .replace(r"{bold}", r"<bold>")\
           .replace(r"{/bold}", r"</bold>")\
           .replace(r"{italic}", r"<italic>")\
